@@ -130,9 +130,9 @@ def model_outcome(d):
     """c12.dec_result form -> the form of the implementation drivers (harness/impl/c18.*)"""
     if d[0] == 'ok':
         kinds = (['bom'] if d[3][0] else []) + (['quoting'] if d[3][1] is not None else []) + (['num_fields'] if d[3][2] is not None else [])
-        return {'records': d[1], 'header': d[2], 'warnings': sorted(kinds), 'error': None}
+        return {'records': d[1], 'header': d[2], 'warnings': sorted(kinds), 'fields': d[3][2], 'error': None}
     if d[0] == 'err':
-        return {'records': None, 'header': None, 'warnings': None, 'error': 'IO'}
+        return {'records': None, 'header': None, 'warnings': None, 'fields': None, 'error': 'IO'}
     return {'model': d}
 
 
@@ -160,6 +160,7 @@ def part_readers(ctx):
         cases = ctx.rng.sample(cases, min(len(cases), 120))
     gp = lib.run_impl_py('c18', cases)
     gj = lib.run_impl_js('c18', cases)
+    gjb = lib.run_impl_js('c18', [dict(c, bulk=True) for c in cases])       # rbql-js bulk path (the file read in one piece)
 
     def rel(c, e, g):
         return isinstance(e, list) and isinstance(g, list) and len(e) == len(g) and all(x == y for x, y in zip(e, g))
@@ -170,6 +171,8 @@ def part_readers(ctx):
                 return 'readers differ on text %r (%s, comment prefix %r, header %s): python %s, javascript %s' % (t, c['pol'], c['comment_prefix'], c['has_header'], json.dumps(x), json.dumps(y))
         return 'readers: %s vs %s' % (json.dumps(e)[:200], json.dumps(g)[:200])
     ctx.compare(cases, gp, gj, THEOREM, rel=rel, describe=desc, corrupt=lambda e: (e + ['CANARY']) if isinstance(e, list) else 'CANARY')
+    ctx.compare([dict(c, impl='js-bulk', bulk=True) for c in cases], gp, gjb, THEOREM, rel=rel,
+                describe=lambda c, e, g: 'rbql-js BULK path: ' + desc(c, e, g), corrupt=lambda e: (e + ['CANARY']) if isinstance(e, list) else 'CANARY')
     # the model: the reader specification records_of_text (= both stream readers, C18_readers_agree) over the real splitter model
     flat = [(ci, t) for ci, c in enumerate(cases) for t in c['texts']]
     args = [lib.enc([c12.cfg_sx({'policy': cases[ci]['pol'], 'comment': cases[ci]['comment_prefix'], 'header': cases[ci]['has_header']}, 'utf-8'),
